@@ -466,7 +466,25 @@ def c08_ctl_job():
                assumptions=['typed control-message headers: the part of the Ctl pipeline that concerns serialisation (the dispatch tables themselves are C17)'])
 
 
+def c12_builder_tags(tag):
+    # the builder links the extension headers of the header set it was given (three copies: write, write_to_vec, write_to_slice)
+    t = tag.split(':')[0]
+    return ['C12'] if t in ('chain.linked_by_builder_not_serialisable', 'ipv4.protocol', 'ipv4.auth.next_header', 'ipv6.next_header', 'ipv6.exts.order',
+                            'ipv6.exts.last_next_header') else []
+
+
+def c12_builder_job():
+    j = JOBS['C10']
+    return Job('C12', mc=j.mc, tag=j.tag, drive=j.drive, trace=j.trace, invariants=j.invariants, consts_quick=j.consts_quick, consts_thorough=j.consts_quick,
+               extra=j.extra, tag_props=c12_builder_tags,
+               describe='one case = one builder path with extension headers: the builder links the chain itself in each of its three sinks; the linked set serialises and the '
+                        'links in the bytes follow the RFC 8200 order up to the transport protocol',
+               assumptions=['builder paths: only the linking of the extension headers is judged here (everything else about the builder is C10)'])
+
+
 def run(pid, tier, seed, replay=None):
+    if pid == 'C12':
+        return run_composite(pid, tier, seed, replay, JOBS['C12'], c12_builder_job(), ('extension_chain_walkers', 'chains_linked_by_the_builder'))
     if pid == 'C08':
         return run_composite(pid, tier, seed, replay, JOBS['C08'], c08_ctl_job(), ('header_codecs', 'typed_control_message_headers'))
     if pid == 'C15':
